@@ -229,7 +229,11 @@ pub fn run_check(prop: &str, tier: &str) -> i32 {
             let plan = crashprops::CrashPlan { crash: true, layout_tag: "C05", nest: 0, reopen_cycles: 0, sector_tear: false, layout: true, probe_auto_ts: false, continue_after: false };
             crashprops::crash_check(prop, s, &["C05"], plan, budget * 0.35, &mut report);
             // (3) the partition at quiescence after every schedule of the reader/writer/flush/reuse programs
-            schedprops::run_programs(c08::programs(false), 1, 4000, budget * 0.15, &schedprops::judge_linearizable, None, &["C05"], &mut report);
+            let mut progs = c08::programs(false);
+            // ... and the persisted counters once every thread's own flush() has returned
+            progs.extend(c08::ack_programs().into_iter().filter(|p| p.threads.iter().all(|t| matches!(t.last(), Some(crate::sut::Op::Flush)))));
+            progs.reverse();
+            schedprops::run_programs(progs, 1, 4000, budget * 0.15, &schedprops::judge_linearizable, None, &["C05"], &mut report);
         }
         "C07" => {
             let bound = if thorough { 3 } else { 2 };
@@ -309,8 +313,12 @@ pub fn run_check(prop: &str, tier: &str) -> i32 {
         "C10" => {
             let deep = suites::layout_suites(thorough);
             let plan = crashprops::CrashPlan { crash: false, layout_tag: "C10", nest: 0, reopen_cycles: 0, sector_tear: false, layout: true, probe_auto_ts: false, continue_after: false };
-            crashprops::crash_check(prop, deep, &["C10"], plan, budget, &mut report);
+            crashprops::crash_check(prop, deep, &["C10"], plan, budget * 0.85, &mut report);
             c10::run(&mut report);
+            // concurrent flush callers: once every thread's flush() has returned, the file as it stands
+            // (before the harness flushes anything itself) must carry metadata with the live totals
+            let pairs: Vec<schedprops::Program> = c08::ack_programs().into_iter().filter(|p| p.threads.iter().all(|t| matches!(t.last(), Some(crate::sut::Op::Flush)))).collect();
+            schedprops::run_programs(pairs, if thorough { 3 } else { 2 }, 4000, budget * 0.15, &schedprops::judge_linearizable, None, &["C10"], &mut report);
         }
         "C06" => c06::run(tier, &mut report),
         "C14" => {
